@@ -355,8 +355,22 @@ def _collect(proc: "_Proc") -> None:
     db.close()
 
 
+def _quiet_unraisable(unraisable: Any) -> None:
+    """coroutines of an abandoned process are closed by the garbage collector outside their asyncio
+    context; the engine's `run_context` then fails to reset its ContextVar token.  Teardown noise of
+    the harness (a real process would simply be gone), not a fact about the run."""
+    import sys
+
+    if isinstance(unraisable.exc_value, ValueError) and "was created in a different Context" in str(unraisable.exc_value):
+        return
+    sys.__unraisablehook__(unraisable)
+
+
 def _run_process(proc: _Proc, main_body: Any) -> None:
+    import sys
+
     install_observers()
+    sys.unraisablehook = _quiet_unraisable  # stays: abandoned coroutines are collected whenever the GC gets to them
     try:
         def hook_factory(loop: VLoop):
             return lambda: proc.hook(loop)
